@@ -659,7 +659,12 @@ func c05Restore(t *vk.T, i, count int) {
 		var b []byte
 		src := seeds[r.Intn(len(seeds))]
 		kind := ""
-		switch r.Intn(6) {
+		switch r.Intn(7) {
+		case 6:
+			// the smallest complete documents: null, undefined, true, 0, empty array / map / byte string / text
+			tiny := [][]byte{{0xf6}, {0xf7}, {0xf5}, {0x00}, {0x80}, {0xa0}, {0x40}, {0x60}, {}}
+			b = tiny[(k/len(names))%len(tiny)]
+			kind = fmt.Sprintf("tiny-document-%x", b)
 		case 0:
 			b = r.Bytes(r.Intn(300))
 			kind = "random"
@@ -760,6 +765,8 @@ func c05RestoreResource(t *vk.T, withCMP bool) {
 		{"oversized-64KiB-3mod4-no-small-factor", c05OversizedNumber(r, 64<<10)},
 		{"ff-64KiB", bytes.Repeat([]byte{0xff}, 64<<10)},
 		{"bytes-1MiB", bytes.Repeat([]byte{0x41}, 1<<20)},
+		{"empty", []byte{}},
+		{"one-byte", []byte{2}},
 	}
 	for _, nm := range names {
 		c := codecs[nm]
@@ -832,5 +839,5 @@ func c05RestoreResource(t *vk.T, withCMP bool) {
 			}
 		}
 	}
-	t.Sample(map[string]any{"level": "restore-resource", "types": names, "probes": []string{probes[0].name, probes[1].name, probes[2].name, probes[3].name}})
+	t.Sample(map[string]any{"level": "restore-resource", "types": names, "probes": []string{probes[0].name, probes[1].name, probes[2].name, probes[3].name, probes[4].name, probes[5].name}})
 }
